@@ -277,6 +277,9 @@ func TestVF_C11_ProxyWitness(t *testing.T) {
 		what += "answered with the v0 UNSUPPORTED_VERSION fallback"
 	}
 	st.KnownResult(c11FindingProxyFallback, msg != "", what)
+	if msg != "" && !vfkit.Known(c11FindingProxyFallback) {
+		t.Fatalf("regression of a repaired finding (%s is not listed as known): %s", c11FindingProxyFallback, what)
+	}
 	st.NonTrivial("proxy-witness", msg != "")
 	st.Sample(map[string]any{"result": what, "reply_hex": fmt.Sprintf("%x", c11Clip(reply))})
 	t.Log(what)
